@@ -7,6 +7,10 @@ from .. import gen, contracts
 from . import c02
 
 PROP = "C05"
+LEVEL_TEXT = 'Per-row numpy oracle for 9 named reductions and 10 ufunc.reduce forms in 8 spellings, every placement of empty rows (exhaustive for <=4 rows of length 0..2), lazy receivers; integer means judged against exact rational arithmetic. Exploration.'
+LEVEL_NOTE = "trusts numpy 2.x, CPython (copy.copy, slice semantics, big ints) and the reference model in rtmon/props/c05.py; decides the executions it produces, nothing more"
+TECHNIQUE = 'runtime monitoring: reference-model oracle (numpy per row / exact rational mean) + exhaustive small-scope sweep of row-length vectors'
+DESIGN_REF = "DESIGN.md sections 0, 5 (C05), 7"
 RULE = ("case = (row lengths, dtype, flat values, reduction name, spelling: method / np.<f> / ufunc.reduce / axis=None / keepdims); "
         "distinct = hash of the case; non-trivial = >= 2 rows and (an empty row or >= 2 cells)")
 ASSUMPTIONS = ["max/min/mean/argmax/argmin are compared on non-empty rows only (one entry per row is still required)",
